@@ -7,6 +7,7 @@ import IppModel.Model.Cost
 import IppModel.Model.Http
 import IppModel.Model.Cli
 import IppModel.Model.Tls
+import IppModel.Spec.Container
 namespace Ipp.Ops2
 open Ipp Ipp.Gen Ipp.Text
 
@@ -93,15 +94,7 @@ def dispatch2 (op : String) (args : List SExp) : Option String :=
              | some t, some n, some v => some (t, n, v)
              | _, _, _ => none)
           | _ => none
-        let spec : Option (List Group) := parsed.map fun pops =>
-          let forKind (t : DelimiterTag) := (pops.filter fun o => o.1 == t).map fun o => (o.2.1, o.2.2)
-          let idx := List.range start.length
-          let existing := idx.map fun i =>
-            let g := start[i]!
-            let firstOfKind := !((start.take i).any fun x => x.tag == g.tag)
-            if firstOfKind then { g with attrs := sinsertAll (forKind g.tag) g.attrs } else g
-          let newKinds := (pops.map (·.1)).foldl (fun acc t => if acc.contains t || start.any (fun x => x.tag == t) then acc else acc ++ [t]) []
-          existing ++ newKinds.map fun t => ⟨t, sinsertAll (forKind t) []⟩
+        let spec : Option (List Group) := parsed.map fun pops => Spec.addHistory start pops
         (match ops.foldl step (some start), spec with
          | some g, some sp => s!"{showMsg h g}{groupsOfText g} ## {showMsg h sp}{groupsOfText sp}"
          | _, _ => "(bad-arg)")
